@@ -785,9 +785,10 @@ fn pre_validate_point(val: &str, components: usize) -> ClResult<()> {
             break parts.next().is_none();
         }
         if let Some(idx) = parts.next() {
-            match idx.parse::<u32>() {
-                Ok(0) | Err(_) => break false,
-                Ok(_) => {}
+            // amcl parses this component as an `i32` (and unwraps the result)
+            match idx.parse::<i32>() {
+                Ok(v) if v > 0 => {}
+                _ => break false,
             }
         } else {
             break false;
